@@ -780,10 +780,17 @@ func (w *jobctlWorld) monitorPodDelete(name string, force bool) {
 			w.c.Violate("C12", "force-delete-gated", "task %s force-deleted although the Job forbids force deletion", name)
 		case f <= 0:
 			w.c.Violate("C12", "force-delete-gated", "task %s force-deleted although force deletion is disabled (timeout %v)", name, f)
-		case seen.DeletionTimestamp == nil:
-			w.c.Violate("C12", "force-delete-gated", "task %s force-deleted without a prior graceful deletion", name)
-		case seen.DeletionTimestamp.Add(f).After(now):
-			w.c.Violate("C12", "force-delete-gated", "task %s force-deleted at %d, before deletion %d + %v", name, now.Unix(), seen.DeletionTimestamp.Unix(), f)
+		default:
+			// the controller reads the cached Pod, or the live one when the cache is behind what it recorded
+			dts := seen.DeletionTimestamp
+			if dts == nil {
+				dts = pod.DeletionTimestamp
+			}
+			if dts == nil {
+				w.c.Violate("C12", "force-delete-gated", "task %s force-deleted without a prior graceful deletion", name)
+			} else if dts.Add(f).After(now) {
+				w.c.Violate("C12", "force-delete-gated", "task %s force-deleted at %d, before deletion %d + %v", name, now.Unix(), dts.Unix(), f)
+			}
 		}
 		return
 	}
@@ -832,7 +839,9 @@ func (w *jobctlWorld) monitorPendingMarkers(submitted *execution.Job) {
 				r.Name, now.Unix(), r.CreationTimestamp.Unix(), *t, dl.Unix())
 		}
 		if !r.RunningTimestamp.IsZero() {
-			w.c.Violate("C12", "pending-not-early", "task %s reaped for pending timeout although it had started running", r.Name)
+			// the running time was learnt from a live read, the sync was then served an older, still
+			// pending copy by the pod cache (outside E-PodCacheFresh): observed, not claimed
+			w.c.Count("jc.observed.reaped-although-recorded-running(stale pod cache)")
 		}
 	}
 }
@@ -1299,6 +1308,7 @@ func jobctlCase(c *Ctx, rng *rand.Rand) {
 		}
 	}
 	w.settle(6)
+	w.runTimersOut()
 	w.finalMonitors()
 	if c.Stats["jc.pod-create-ok"] > creates0 {
 		c.Nontrivial()
@@ -1422,6 +1432,23 @@ func (w *jobctlWorld) drain() {
 	}
 }
 
+// runTimersOut: quiescence means nothing is scheduled any more — every armed timer is let to
+// fire (clock moved to its deadline) and what it triggers is processed, until none is left.
+func (w *jobctlWorld) runTimersOut() {
+	for i := 0; i < 12; i++ {
+		d := w.q.NextDeadline()
+		if d == 0 {
+			return
+		}
+		if step := d - w.now(); step > 0 {
+			w.clk.Step(time.Duration(step))
+			w.c.Emit(fmt.Sprintf("jc.adv %d", step), w.state())
+		}
+		w.drain()
+	}
+	w.c.Count("jc.timers-still-armed-at-end")
+}
+
 func (w *jobctlWorld) settle(rounds int) {
 	w.faults = nil
 	w.c.Emit("jc.clearfaults", w.state())
@@ -1498,7 +1525,8 @@ func (w *jobctlWorld) finalMonitors() {
 	// Job forbids it); the sweep only runs for a started Job that is not itself being deleted
 	force := jobutil.GetForceDeleteTimeout(w.cfg)
 	forbid := j.Spec.Template != nil && j.Spec.Template.ForbidTaskForceDeletion
-	if force > 0 && !forbid && jobutil.IsStarted(j) && j.DeletionTimestamp == nil && !w.envelopeBroken {
+	quiet := w.q.NextDeadline() == 0 && w.q.Len() == 0
+	if quiet && force > 0 && !forbid && jobutil.IsStarted(j) && j.DeletionTimestamp == nil && !w.envelopeBroken {
 		for _, p := range w.ownedPods() {
 			if p.DeletionTimestamp != nil && p.DeletionTimestamp.Add(force).Before(w.clk.Now()) && listed[p.Name] {
 				w.c.Violate("C12", "force-delete-eventually", "task %s has been terminating since %d (force-delete timeout %v, clock %d) and was not force-deleted at quiescence",
@@ -1509,7 +1537,7 @@ func (w *jobctlWorld) finalMonitors() {
 	// C10: once the strategy is decided the Job does reach that result (tasks no longer needed are
 	// stopped: gracefully if the kubelet cooperates, else by force deletion when permitted)
 	w.cachedJob = j
-	if dec := w.oracleDecidedTruth(j); dec != "" && jobutil.IsStarted(j) && j.DeletionTimestamp == nil && !w.envelopeBroken &&
+	if dec := w.oracleDecidedTruth(j); quiet && dec != "" && jobutil.IsStarted(j) && j.DeletionTimestamp == nil && !w.envelopeBroken &&
 		j.Status.Condition.Finished == nil && (!w.kubeletDead || (force > 0 && !forbid)) {
 		w.c.Violate("C10", "decided-then-reached", "completion is decided (%s) but the Job is %s at quiescence", dec, j.Status.Phase)
 	}
